@@ -124,11 +124,18 @@ func (c *Ctx) runOneBatch(b TypeBatch, o eopts) []*Outcome {
 		return []*Outcome{{Item: &it, Stage: stage, Stderr: stderr, Dir: dir, GenExit: exit}}
 	}
 	g := c.Goderive(dir, []string{"./p"})
-	if g.Exit != 0 || g.Crash != "" || g.TimedOut {
+	if g.TimedOut && g.Crash == "" {
+		// wall-clock watchdog (the CPU limit gives the verdict on hangs): inconclusive
+		return fail("timeout", "goderive: wall-clock watchdog fired after "+g.CPU.String()+" of CPU time", g.Exit)
+	}
+	if g.Exit != 0 || g.Crash != "" {
 		return fail("generate", g.Stderr, g.Exit)
 	}
 	if o.BuildOnly {
 		bl := c.Go(dir, "build", "./p")
+		if bl.TimedOut {
+			return fail("timeout", "go build: wall-clock watchdog fired", 0)
+		}
 		if bl.Exit != 0 {
 			return fail("compile", bl.Stderr+bl.Stdout, 0)
 		}
@@ -144,6 +151,9 @@ func (c *Ctx) runOneBatch(b TypeBatch, o eopts) []*Outcome {
 	}
 	args = append(args, "-o", "h", "./cmd/h")
 	bl := c.Go(dir, args...)
+	if bl.TimedOut {
+		return fail("timeout", "go build: wall-clock watchdog fired", 0)
+	}
 	if bl.Exit != 0 {
 		return fail("compile", bl.Stderr+bl.Stdout, 0)
 	}
@@ -191,6 +201,15 @@ func (c *Ctx) runOneBatch(b TypeBatch, o eopts) []*Outcome {
 				for _, id := range rest {
 					if !second {
 						outs[id] = &Outcome{Item: byID[id], Stage: "missing", Stderr: "harness exited 0 without reporting the item", Dir: dir}
+					}
+				}
+				break
+			}
+			if r.TimedOut {
+				// the monitor process ran into the wall-clock watchdog: no verdict for what it had not reported yet
+				for _, id := range rest {
+					if !second {
+						outs[id] = &Outcome{Item: byID[id], Stage: "timeout", Stderr: "monitor process: wall-clock watchdog fired", Dir: dir}
 					}
 				}
 				break
